@@ -2,10 +2,14 @@
 From Coq Require Import Lia.
 From AV Require Import Base.Bytes Base.Outcome Hash.HashModel Spec.SpecOps Xml.TablesOk Tree.Heap Tree.Ops Tree.Script Tree.Inv.
 From AV Require Import Tree.NoPanic Tree.NoPanicProofsBase Tree.NoPanicProofsOps1 Tree.NoPanicProofsDepth.
-From AV Require Import Tree.NoPanicProofsClosed Tree.NoPanicProofsOps2 Tree.NoPanicProofsOps3 Tree.NoPanicProofsOps4 Tree.NoPanicProofsOps5 Tree.NoPanicProofsCopy Tree.NoPanicProofsCopy2.
+From AV Require Import Tree.NoPanicProofsClosed Tree.NoPanicProofsOps2 Tree.NoPanicProofsOps3 Tree.NoPanicProofsOps4 Tree.NoPanicProofsOps5 Tree.NoPanicProofsCopy Tree.NoPanicProofsCopy2 Tree.NoPanicProofsMove.
 Open Scope string_scope.
 Open Scope list_scope.
 Open Scope N_scope.
+
+(* the world-dependent side condition: a move stays within one model *)
+Definition side12 (w : world) (o : op) : Prop :=
+  match o with OpMove h mv | OpMoveAt h mv _ => ~ cross_model w h mv | _ => True end.
 
 Lemma runs_not_pan {A} (m : W A) w : runs m w -> (forall s, m w <> Pan s) /\ m w <> Fuel.
 Proof. intros (r & w' & E). rewrite E. split; [intros s|]; discriminate. Qed.
@@ -26,15 +30,17 @@ Notation PanicFree := (PanicFree T tab_el tab_en).
 Notation op_wf := (op_wf tab_el tab_en).
 Notation run12 := (run12 T tab_el tab_en check_fn LATEST root_attrs).
 
-Theorem no_panic_covered w o : covered_op o = true -> PanicFree w -> SizeOk w -> op_wf w o -> runs (run12 o) w.
+Theorem no_panic_covered w o : covered_op o = true -> PanicFree w -> SizeOk w -> op_wf w o -> side12 w o -> runs (run12 o) w.
 Proof.
-  intros COV PF SZ WF. unfold run12, run_op. destruct o; try discriminate COV; cbn [op_wf] in WF; unfold h_ok, m_ok, f_ok in WF.
+  intros COV PF SZ WF SD. unfold run12, run_op. destruct o; try discriminate COV; cbn [op_wf] in WF; cbn [side12] in SD; unfold h_ok, m_ok, f_ok in WF.
   - apply runs_welem. apply (ENV np_create_sub_element); tauto.
   - apply runs_welem. apply (ENV np_create_sub_element_at); tauto.
   - apply runs_welem. apply (ENV np_create_named); tauto.
   - apply runs_welem. apply (ENV np_create_named_at); tauto.
   - apply runs_welem. apply (ENV np_copy); tauto.
   - apply runs_welem. apply (ENV np_copy_at); tauto.
+  - apply runs_welem. apply (ENV np_move); tauto.
+  - apply runs_welem. apply (ENV np_move_at); tauto.
   - apply runs_wunit. apply (ENV np_remove); tauto.
   - apply runs_wunit. apply (ENV np_remove_kind); tauto.
   - apply runs_wunit. apply (ENV np_set_item_name); tauto.
@@ -56,7 +62,7 @@ Proof.
   - apply runs_wunit. apply (ENV np_remove_from_file); tauto.
 Qed.
 
-Theorem no_panic_covered' w o : covered_op o = true -> PanicFree w -> SizeOk w -> op_wf w o ->
+Theorem no_panic_covered' w o : covered_op o = true -> PanicFree w -> SizeOk w -> op_wf w o -> side12 w o ->
   (forall s, run12 o w <> Pan s) /\ run12 o w <> Fuel.
 Proof. intros. apply runs_not_pan. apply no_panic_covered; assumption. Qed.
 
@@ -86,12 +92,8 @@ Qed.
 
 (* which constructors the partial theorem covers (pinned, so that coverage cannot shrink silently) *)
 Theorem coverage : forall o,
-  covered_op o = match o with
-                 | OpMove _ _ | OpMoveAt _ _ _ => false
-                 | OpSetCData _ (DFloat _) => false
-                 | _ => true
-                 end.
-Proof. intros o. destruct o; try reflexivity. Qed.
+  covered_op o = match o with OpSetCData _ (DFloat _) => false | _ => true end.
+Proof. intros o. destruct o; reflexivity. Qed.
 
 (* non-vacuity: the hypotheses are satisfiable (the empty world, from which every history starts with OpNewModel) *)
 Example panicfree_empty (T : tables) (tab_el tab_en : nametab) : PanicFree T tab_el tab_en empty_world.
